@@ -8,6 +8,7 @@ import Robsd.Model.Report
 import Robsd.Model.Ls
 import Robsd.Model.Schedule
 import Robsd.Model.Exec
+import Robsd.Model.Clean
 /-
   robsd_model: the executable models behind a line protocol.
   One request per line: `<component> <op> <args…>`; byte strings are hex
@@ -129,6 +130,10 @@ def showArgv (a : List Bytes) : String := ";".intercalate (a.map toHex)
 
 def handle (ws : List String) : String :=
   match ws with
+  | "clean" :: n :: lock :: listing :: [] =>
+    ",".intercalate ((Clean.cleaned ((listOf listing).map hexArg) (optHex lock) (n.toNat?.getD 0)).map toHex)
+  | "buildid" :: date :: dirs :: [] => toHex (Clean.buildId (hexArg date) ((listOf dirs).map hexArg))
+  | "logid" :: step :: name :: files :: [] => toHex (Clean.logId (step.toNat?.getD 0) (hexArg name) ((listOf files).map hexArg))
   | "exec" :: "step" :: name :: st :: rest =>
     let kv := kvOf rest
     let lookup := envLookup (pairsOf (kvGet kv "env"))
